@@ -5,7 +5,7 @@
 cd /verif || exit 2
 ids="$*"
 [ -z "$ids" ] && ids=$(ls seeded | grep -v RESULTS | sort)
-out=seeded/RESULTS.md
+out=${SEEDED_OUT:-seeded/RESULTS.md}
 {
 echo "# Quick tier against every seeded change"
 echo
